@@ -343,6 +343,12 @@ def run_to_completion(model, n_agents, label, case_info, params_override=None):
             init = {s: jnp.asarray(r.grids[s][pick[:, k]]) for k, s in enumerate(r.states)}
         else:
             init = {}
+        stage = "solve(jit=False)"
+        solve_nojit, _ = get_lcm_function(model, targets="solve", debug_mode=False, jit=False)
+        V_nojit = solve_nojit(params)
+        for a, b_ in zip(V, V_nojit):  # every returned array must be usable
+            if np.asarray(a).shape != np.asarray(b_).shape:
+                raise ValueError(f"jit=False returns shape {np.asarray(b_).shape}, jit=True {np.asarray(a).shape}")
         stage = "simulate"
         fr = sim(params, initial_states=init, vf_arr_list=V)
         stage = "solve_and_simulate"
